@@ -556,8 +556,8 @@ namespace Mach
 
 /-! #### `processRequest` -/
 
-@[simp] theorem updateActivity_root (m : Mach U) : m.updateActivity.root = m.root := rfl
-@[simp] theorem updateActivity_w (m : Mach U) : m.updateActivity.w = m.w := rfl
+@[simp] theorem root_updateActivity (m : Mach U) : m.updateActivity.root = m.root := rfl
+@[simp] theorem w_updateActivity (m : Mach U) : m.updateActivity.w = m.w := rfl
 
 theorem processRequest_errLe (m : Mach U) : World.ErrLe m.w m.processRequest.w := by
   unfold processRequest
@@ -574,7 +574,7 @@ theorem processRequest_errLe (m : Mach U) : World.ErrLe m.w m.processRequest.w :
       have := h1 (by simpa using h)
       simpa using this
     · intro h
-      simp only [updateActivity_w] at h
+      simp only [w_updateActivity] at h
       have h' : (m2.root.commit (({ m2.w.freshControl with current := cur } : World U).snapshot m2.root false false)).2.err = none := h
       have := (Node.commit_ext m2.root _).err h'
       have := h1 (by simpa using this)
@@ -614,7 +614,7 @@ theorem processRequest_live {base : Node} {m : Mach U} (hi : LiveInv base m) (he
       obtain ⟨hl, hn, hs⟩ := Node.clearMarks_live hi2.live
       exact ⟨⟨hs.trans hi2.shape, hl, hi2.good.of_eq rfl rfl rfl⟩, fun h => (hne h).elim, fun _ => hn⟩
     · intro he
-      simp only [updateActivity_w] at he
+      simp only [w_updateActivity] at he
       have he' : (m2.root.commit (({ m2.w.freshControl with current := cur } : World U).snapshot m2.root false false)).2.err = none := he
       have hi2 := h1 (by simpa using (Node.commit_ext m2.root _).err he')
       obtain ⟨hlc, hsc⟩ := Node.commit_live (({ m2.w.freshControl with current := cur } : World U).snapshot m2.root false false) hi2.live
